@@ -68,6 +68,8 @@ THEOREMS = [
     "PV.Prog.annassign_simple_spec",
     "PV.Prog.annassign_bare_name",
     "PV.Prog.annassign_paren_name_simple",
+    # (e) printer round trip on a fragment
+    "PV.Prog.render_parse_partial",
 ]
 TRUSTED = [
     "Lean 4.33.0 kernel; axioms limited to propext, Classical.choice, Quot.sound",
@@ -90,10 +92,14 @@ PARTIAL = [
     "the driver with exactly fuelFor",
     "parse_expr_stmt_agree is about acceptance for SOME (equivalently: every sufficiently large) fuel, on one-expression "
     "lines (ExprLine: no NEWLINE / `;` inside, not starting with `yield`); the exceptions are witnessed at the driver's fuel",
-    "(e) statement printer `render` and the round trip parseProgram (render m) = some m: not built",
+    "(e) render_parse_partial covers Pass, Break, Continue, Expr, Return, If and While (non-empty bodies, optional else, "
+    "nested arbitrarily) over C11's expression fragment, in Module / Interactive / Expression mode, at token level and "
+    "for every sufficiently large fuel; the full statement render_parse_full (the other 20 statement forms, patterns) is "
+    "stated, not proved, and `render` prints nothing for those forms",
     "the reference parser is tied to python.rs by correspondence only; outside its lexical domain (dropped from the "
-    "streams and counted in the notes): a line break inside an f-string replacement field, `f'{:spec}'` with an empty "
-    "expression (PV.C11.Spec.fstrField lacks the EmptyExpression check there)",
+    "streams and counted in the notes): inside an f-string replacement field a line break, a `#`, or a non-ASCII "
+    "character that is not an identifier character; `f'{:spec}'` / `f'{=:spec}'` with an empty expression "
+    "(PV.C11.Spec.fstrField lacks the EmptyExpression check there)",
 ]
 RULE = ("one request = one source text x one mode; both sides answer with the canonical range-erased, ctx-erased tree or "
         "`parse-error`; byte-identical answers required")
@@ -159,8 +165,8 @@ def fix_attachment(att):
 
 
 def _field_outside_model(body):
-    """an f-string body with (a) a line break inside a replacement field (only possible in triple-quoted literals) or
-    (b) a field whose expression part is blank and followed by a format spec (`{:x}`)"""
+    """an f-string body with (a) a line break, a `#` or a non-ASCII character that is not an identifier character inside a
+    replacement field or (b) a field whose expression part is blank and followed by a format spec, `=` or a conversion (`{:x}`, `{=:x}`)"""
     depth = 0
     i = 0
     n = len(body)
@@ -174,7 +180,7 @@ def _field_outside_model(body):
             j = i + 1
             while j < n and body[j] in " \t\n\r\x0c":
                 j += 1
-            if j < n and body[j] == ":":
+            if j < n and body[j] in ":=!":
                 return True
         elif c == "}":
             if depth > 0:
@@ -182,7 +188,9 @@ def _field_outside_model(body):
             elif i + 1 < n and body[i + 1] == "}":
                 i += 2
                 continue
-        elif c in "\n\r" and depth > 0:
+        elif c in "\n\r#" and depth > 0:
+            return True
+        elif depth > 0 and ord(c) > 127 and not ("a" + c).isidentifier():
             return True
         i += 1
     return False
@@ -191,14 +199,16 @@ def _field_outside_model(body):
 def outside_domain(att):
     """Token streams the EXPRESSION model (PV.C11.Spec, shared, not edited here) cannot take the way string.rs does:
     (a) its reference tokenizer reads the text of an f-string replacement field BEFORE it is wrapped in parentheses, so a
-        line break inside a field is a logical newline to it (string.rs wraps first);
+        line break inside a field is a logical newline to it and a `#` comment does not swallow the closing parenthesis
+        (string.rs wraps first: `f"{#}"` is an error there, `()` for the model); it also takes every non-ASCII character
+        for an identifier character (the real lexer asks the XID tables);
     (b) `fstrField` has no EmptyExpression check when a format spec follows: `f'{:x}'` is read as FormattedValue(())
         where string.rs rejects.
     Such requests are dropped and counted (reported to the lead as a defect of PV.C11.Spec's f-string part)."""
     if "sf" not in att and "sR" not in att:
         return False
     for it in att.split(","):
-        if it[:2] in ("sf", "sR") and ("0a" in it or "0d" in it or "3a" in it):
+        if it[:2] in ("sf", "sR"):
             if _field_outside_model(unhex(it[3:]).decode("utf-8")):
                 return True
     return False
@@ -270,7 +280,7 @@ def _stream(ctx, name, items, kind, note, exhaustive=False):
     before = DROPPED["n"]
     reqs = requests_for(items)
     if DROPPED["n"] > before:
-        note += " (%d texts dropped: f-string field with a line break or with an empty expression before a format spec, see outside_domain)" % (DROPPED["n"] - before)
+        note += " (%d texts dropped: f-string field with a line break, a `#`, or an empty expression before a format spec, see outside_domain)" % (DROPPED["n"] - before)
     s = Stream(name, reqs, kind=kind, exhaustive=exhaustive, note=note)
     s.oracle = _counter(ctx, s, note)
     return s
@@ -586,10 +596,11 @@ def streams(ctx):
 # ------------------------------------------------------------------------------------------------ violation search
 
 def _both(bins, items):
+    """answers of both sides for texts INSIDE the model's lexical domain (others are dropped: [] is returned for them)"""
     hbin = (bins or {}).get((HARNESS["bin"], HARNESS["features"]))
     if not hbin or not os.path.exists(hbin):
         hbin = _bin()
-    reqs = requests_for(items, keep_all=True)
+    reqs = requests_for(items)
     a = core.run_lines([hbin], reqs, jobs=4)
     b = core.run_lines([core.driver_path(DRIVER)], reqs, jobs=4)
     return reqs, a, b
@@ -616,6 +627,8 @@ def search(ctx, disagreements, bins):
             except UnicodeEncodeError:
                 return None
             r, a, b = _both(bins, [(mode, t)])
+            if not r:
+                return None         # the candidate left the model's lexical domain
             return (r[0], a[0], b[0]) if a[0] != b[0] else None
 
         cur = differs(src)
